@@ -9,7 +9,6 @@ use crate::{
     CompilationError, XStaticFunction,
 };
 
-use num_integer::binomial;
 use num_traits::{One, Pow, Signed, ToPrimitive, Zero};
 
 use rc::Rc;
@@ -394,6 +393,26 @@ pub(crate) fn add_int_multinom<W, R, T>(
     )
 }
 
+/// n choose k (k <= n), or None if it does not fit a usize
+fn checked_binomial(n: usize, k: usize) -> Option<usize> {
+    let k = k.min(n - k) as u128;
+    let n = n as u128;
+    let mut ret: u128 = 1;
+    for j in 1..=k {
+        // exact at every step: a product of j consecutive integers is divisible by j!
+        ret = ret.checked_mul(n - k + j)? / j;
+        if ret > usize::MAX as u128 {
+            return None;
+        }
+    }
+    Some(ret as usize)
+}
+
+/// a * b / c without overflowing in the product
+fn mul_div(a: usize, b: usize, c: usize) -> usize {
+    ((a as u128 * b as u128) / c as u128) as usize
+}
+
 pub(crate) fn add_int_permutation<W, R, T>(
     scope: &mut RootCompilationScope<W, R, T>,
 ) -> Result<(), CompilationError> {
@@ -472,25 +491,28 @@ pub(crate) fn add_int_combination<W, R, T>(
                     xerr(ManagedXError::new("i too large", rt)?)
                 };
             }
-            let mut s_cutoff = binomial(n-1,k-1);
-            let total = s_cutoff*n/k;
-            if i >= total{
+            let Some(mut s_cutoff) = checked_binomial(n-1,k-1) else { return xerr(ManagedXError::new("too many combinations", rt)?); };
+            let total = s_cutoff as u128 * n as u128 / k as u128;
+            if i as u128 >= total{
                 return xerr(ManagedXError::new("i too large", rt)?);
             }
             let mut s = 0;
             rt.can_allocate(k)?;
             let mut ret = Vec::with_capacity(k);
+            // up to n steps: bounded by the search limit like every other native scan
+            let mut search = rt.limits.search_iter();
             while k > 0{
+                search.next().unwrap()?;
                 if i < s_cutoff{
                     ret.push(s);
                     if k > 1{
-                        s_cutoff = s_cutoff*(k-1)/(n-s-1);
+                        s_cutoff = mul_div(s_cutoff, k-1, n-s-1);
                     }
                     k -= 1;
                     s+=1;
                 } else {
                     i -= s_cutoff;
-                    s_cutoff = s_cutoff*(n-s-k)/(n-s-1);
+                    s_cutoff = mul_div(s_cutoff, n-s-k, n-s-1);
                     s+=1;
                 }
             }
@@ -526,24 +548,27 @@ pub(crate) fn add_int_combination_with_replacement<W, R, T>(
                     xerr(ManagedXError::new("i too large", rt)?)
                 };
             }
-            let mut s_cutoff = binomial(n+k-2,k-1);
-            let total = (s_cutoff*(n+k-1))/k;
-            if i >= total{
+            let Some(mut s_cutoff) = n.checked_add(k).and_then(|m| checked_binomial(m-2,k-1)) else { return xerr(ManagedXError::new("too many combinations", rt)?); };
+            let total = s_cutoff as u128 * (n as u128 + k as u128 - 1) / k as u128;
+            if i as u128 >= total{
                 return xerr(ManagedXError::new("i too large", rt)?);
             }
             let mut s = 0;
             rt.can_allocate(k)?;
             let mut ret = Vec::with_capacity(k);
+            // up to n + k steps: bounded by the search limit like every other native scan
+            let mut search = rt.limits.search_iter();
             while k > 0{
+                search.next().unwrap()?;
                 if i < s_cutoff{
                     ret.push(s);
                     if k > 1{
-                        s_cutoff = (s_cutoff*(k-1))/(k+n-s-2);
+                        s_cutoff = mul_div(s_cutoff, k-1, k+n-s-2);
                     }
                     k -= 1;
                 } else {
                     i -= s_cutoff;
-                    s_cutoff = (s_cutoff*(n-s-1))/(k+n-s-2);
+                    s_cutoff = mul_div(s_cutoff, n-s-1, k+n-s-2);
                     s+=1;
                 }
             }
